@@ -592,6 +592,7 @@ def run_traced(cfg, max_batches=400):
         step_rng = np.random.default_rng(cfg['seed'] + 29)
         toggle_dirty = False
         ee_resumed = False
+        early_done = False
         while not done and k < est_batches and _time.time() - t_start < cfg.get('max_seconds', 25):
             nl0 = int(s.n_like)
             stride = 1
@@ -632,6 +633,11 @@ def run_traced(cfg, max_batches=400):
             tr.returns.append((nl0, int(s.n_like), bool(done), lim, timeout, pred))
             if int(s.n_like) != nl0:
                 toggle_dirty = False        # a batch ran: write_shell_update has persisted the flag
+            if cfg.get('early_posterior') and not early_done and len(s.bounds) == 1 and int(s.n_like) > 0:
+                # a read-only accessor while exactly one shell exists (what it returns must not alias the stored samples)
+                early_done = True
+                with np.errstate(all='ignore'):
+                    s.posterior(return_blobs=s.blobs is not None)
             # scheduled resumes, plus one right after exploration has ended (empty shells have just been removed and the
             # file renumbered) whenever the configuration resumes at all
             while ((resume_at and resume_at[0] <= k) or (cfg.get('resumes', 0) > 0 and s.explored and not ee_resumed)) \
